@@ -175,7 +175,7 @@ class Interp:
     def const(self, j):
         ty = j['ty']
         if 'fn' in j:
-            return Opaque(('fn', j['fn']))
+            return Opaque(('fn', j['fn'], j.get('fn_full')))
         if 'bits' in j:
             v = int(j['bits'])
             rty = self.resolve_ty(ty)
@@ -709,10 +709,18 @@ class Interp:
             class _C:
                 pass
             cal = _C()
-            cal.full = cv.tag[1]
+            full = cv.tag[2] if len(cv.tag) > 2 and cv.tag[2] else cv.tag[1]
+            cal.full = full
             cal.name = cal.defname = _strip_generics(cv.tag[1])
             cal.trait = None
-            m = self.overrides.get(cal.name) or MODELS.get(cal.name)
+            cal.gargs = None
+            m = self.overrides.get(cal.name) or MODELS.get(cal.name) or MODELS.get(full)
+            if m is None:
+                # `<prim as Trait<..>>::method` named as a function item (`.map(char::from)`): the primitive-trait models
+                import re as _re
+                mm = _re.match(r'<(\w+) as ([\w:]+?)(<.*>)?>::(\w+)$', full)
+                if mm and (mm.group(1) in INT_W or mm.group(1) in ('char', 'bool', 'f64', 'f32', 'usize', 'isize')):
+                    m = MODELS.get('prim::%s::%s' % (mm.group(2).split('::')[-1], mm.group(4)))
             if m is not None:
                 return m(self, list(args), None, cal)
             try:
@@ -1437,6 +1445,8 @@ def _mkey(v):
         return ('str', _norm_chars(v.chars))
     if isinstance(v, Opaque):
         return ('op', v.tag)
+    if isinstance(v, RefV) and not v.path and v.win is None and isinstance(v.cell.v, (StrV, RefV)):
+        return _mkey(v.cell.v)          # &str / &String keys hash and compare by content
     raise Unsupported('map key %r' % (v,))
 
 
